@@ -1,6 +1,6 @@
 #!/bin/bash
 # runall.sh [tier] [props...] : run the registered checks and print one summary line each
 tier=${1:-quick}; shift
-props=${@:-$(python3 -c "import sys; sys.path.insert(0,'/verif'); from checks import REGISTRY; print(' '.join(sorted(REGISTRY)))")}
-cd /verif
+here=$(cd "$(dirname "$0")/.." && pwd); cd $here; mkdir -p .scratch
+props=${@:-$(python3 -c "import sys; sys.path.insert(0,'$here'); from checks import REGISTRY; print(' '.join(sorted(REGISTRY)))")}
 for p in $props; do ./vcheck $p $tier > .scratch/runall_$p.log 2>&1; rc=$?; echo "$p exit=$rc $(grep -E '^\[C' .scratch/runall_$p.log | tail -1) $(grep -c '^VIOLATION' .scratch/runall_$p.log) viol-lines $(grep -c '^KNOWN' .scratch/runall_$p.log) known-lines"; done
